@@ -88,12 +88,22 @@ def prepare(w):
     f, sw, tparam, mparam = find_dispatcher(P)
     logs = {"syslog_libbidib", "syslog", "vsyslog"}
 
+    namers = queue_namers(P)
+
     def works(g, depth=0):
-        """the helper does part of a case's effect: it calls into state tracking or an encoder (log / queue / extract helpers do not)"""
+        """the helper does part of a case's work: it calls into state tracking or an encoder, decides where the message goes (frees it or
+        hands it to a queue wrapper without being one), or computes a value from tracked state that the case branches on
+        (pure log / extract helpers and the queue wrappers themselves do not)"""
+        if g.name in namers:
+            return False
         for c in g.calls():
+            if c.callee == "free" or c.callee in namers:
+                return True
             h = P.functions.get(c.callee or "")
             if h is None or not h.blocks or c.callee in logs:
                 continue
+            if g.ret != "void" and h.relfile.startswith("src/state/"):
+                return True
             if h.relfile.startswith(("src/state/", "src/lowlevel/", "src/highlevel/")) and not h.ret.endswith("*"):
                 return True
             if h.internal and h.relfile == g.relfile and depth < 2 and works(h, depth + 1):
